@@ -315,13 +315,19 @@ def unit_build(alignment, sort_grids):
         g.fields.update({"mol": mol, "atom_grid": {}, "radi_method": "radi", "level": 3, "prune": None, "radii_adjust": None, "atomic_radii": None, "becke_scheme": None,
                          "alignment": alignment, "verbose": 0, "stdout": None, "coords": None, "weights": None, "lmax": 1, "nlm": 4, "grids_indexer": None})
         C.ns["size"] = it.make_function(__import__("ast").parse("@property\ndef size(self):\n    return 0 if self.weights is None else self.weights.size\n").body[0], None, gm, owner=C) if "size" not in C.ns else C.ns["size"]
-        ix = Obj(im.ns["AtomicGridsIndexer"])
-        ix.fields.update({"natm": 2, "ga_loc": np.array([0, 3, N]), "all_weights": None, "idx_map": None, "iatom_list": None, "padding": 0})
+        # the real CiderGrids.gen_atomic_grids runs; the table generator and from_tabs are under their own contracts (units atomic/*, from_tabs): here each
+        # call of from_tabs yields a NEW indexer carrying the molecule it was built for (ghost field)
+        made = []
 
-        def gen_atomic_grids(self_, mol_, *a, **kw):
-            self_.fields["grids_indexer"] = ix
-            return "atom_grids_tab"
-        g.fields["gen_atomic_grids"] = Builtin("abs.gen_atomic_grids", lambda *a, **kw: gen_atomic_grids(g, *a, **kw))
+        def from_tabs(mol_, lmax_, *tabs):
+            ixn = Obj(im.ns["AtomicGridsIndexer"])
+            ixn.fields.update({"natm": 2, "ga_loc": np.array([0, 3, N]), "all_weights": None, "idx_map": None, "iatom_list": None, "padding": 0, "lmax": lmax_, "built_for": mol_})
+            made.append(ixn)
+            return ixn
+        agi = Obj(ClassV("_AtomicGridsIndexerFactory", [], gm))
+        agi.fields["from_tabs"] = Builtin("abs.from_tabs", from_tabs)
+        gm.ns["AtomicGridsIndexer"] = agi
+        gm.ns["gen_atomic_grids_cider"] = Builtin("abs.gen_atomic_grids_cider", lambda mol_, atom_grid, radi, level, prune, **kw: ("atom_grids_tab", "lmax_tab", "rad_loc_tab", "ylm_tab", "ylm_loc_tab", "rad_tab", "dr_tab"))
         g.fields["get_partition"] = Builtin("abs.get_partition", lambda *a, **kw: (allc.copy(), allw.copy()))
         g.fields["check_sanity"] = Builtin("abs.check_sanity", lambda *a: None)
         g.fields["make_mask"] = Builtin("abs.make_mask", lambda *a: "mask")
@@ -338,7 +344,28 @@ def unit_build(alignment, sort_grids):
         except (Unsupported, PyRaise) as e:
             ctx.undecided("%s runs" % tag, str(e)[:200], fq)
             return
+        ix = g.fields["grids_indexer"]
+        ctx.holds("%s the indexer is the one built in this call, for this molecule" % tag, len(made) == 1 and ix is made[-1] and ix.fields["built_for"] is mol, "", fq)
         check_state(ctx, it, g, ix, allc, allw, perm, alignment, tag, fq)
+        # history: building again on the same object (other alignment, then another molecule) leaves no trace of the earlier build
+        if alignment in (1, 4):
+            snapshot = (alignment, mol)
+            for other_al, other_mol in ((1 if alignment == 4 else 4, mol), (alignment, mol_stub(it, gm, ["B", "A"]))):
+                other_mol.fields["nelectron"] = tm.var("nelec")
+                g.fields["alignment"] = other_al
+                try:
+                    it.call_method(g, "build", [other_mol], {"sort_grids": sort_grids})
+                except (Unsupported, PyRaise) as e:
+                    ctx.undecided("%s rebuilt" % tag, str(e)[:200], fq)
+                    break
+                ix2 = g.fields["grids_indexer"]
+                t2 = "%s then build(alignment=%d, %s molecule)" % (tag, other_al, "the same" if other_mol is mol else "another")
+                ctx.holds("%s: the indexer is the one built in this call, for this molecule" % t2, ix2 is made[-1] and ix2 is not ix and ix2.fields["built_for"] is other_mol, "", fq)
+                check_state(ctx, it, g, ix2, allc, allw, perm, other_al, t2, fq)
+            # back to the first configuration for the pruning scenarios below
+            g.fields["alignment"] = alignment
+            it.call_method(g, "build", [mol], {"sort_grids": sort_grids})
+            ix = g.fields["grids_indexer"]
         # density-based pruning: every keep pattern of the small grid
         if alignment in (1, 4):
             nb = len(g.fields["weights"])
